@@ -18,11 +18,16 @@ class C02(DiffProperty):
     modelled = ("ring level: mptcore/queue/queue_push.c (all branches: aligned, upper part, lower part, out-of-band scratch copy, align-and-retry, second "
                 "push), queue_recv.c (MissingBuffer recovery with the chunked move), queue_shift.c, message_get.c transcribed in coq/Cobs/QueueCodec.v on top of "
                 "the C13 ring model and the C01/C03 codec models; the transport the harness plays (wire, receive, pump, retrying push) in coq/Cobs/StreamRun.v; "
-                "flat level: encoder o wire splitting o decoder loop composed in coq/Cobs/StreamProofs.v. mptio/stream/{stream_push,stream_flush,stream_poll,"
-                "stream_dispatch}.c and mptcore/queue/queue_load.c are NOT modelled: they are driven for real by a second harness (harness/c02_io.c: two mpt_stream "
-                "objects over a socketpair, small send buffers, partial and failed writes, reads in 64-byte steps, all four COBS framings and the command text "
-                "framing) and decided against the specification only; the raw (no encoder/decoder) modes of the queue functions are not modelled")
-    trusted = ["harness/c02_io.c: the kernel socket decides how much each writev/readv moves; its pump loop stops after three rounds without progress",
+                "flat level: encoder o wire splitting o decoder loop composed in coq/Cobs/StreamProofs.v. The stream glue mptio/stream/{stream_push,stream_flush,"
+                "stream_poll (POLLIN path),stream_dispatch}.c and mptcore/queue/queue_load.c are transcribed in coq/Cobs/GlueRun.v on top of the ring-level model, with the "
+                "kernel as an oracle (each flush/poll carries the number of bytes the transfer moves, 0, or a failure): harness/c02_glue.c links the real mptio "
+                "objects with wrapped writev/readv that obey the case, so implementation and model are compared at mechanism level after every operation (return "
+                "value, delivered messages, both rings, both coder states, bytes in flight). The same functions are ALSO driven over a real socketpair and over "
+                "memory streams (harness/c02_io.c: kernel-decided transfer sizes, small send buffers, all four COBS framings and the command text framing), there "
+                "decided against the specification only; not modelled: the poll() system call paths of mpt_stream_poll with a timeout, POLLOUT handling, the "
+                "memory-mapped (WriteMap/ReadMap) branches, the text (no encoder) mode of mpt_stream_push, error flags of the stream info")
+    trusted = ["harness/c02_glue.c: writev/readv of the two stream descriptors are replaced at link time (-Wl,--wrap) by a byte pipe that moves exactly the scripted number of bytes",
+               "harness/c02_io.c: the kernel socket decides how much each writev/readv moves; its pump loop stops after three rounds without progress",
                "harness/c02_stream.c plays the transport: it moves finished bytes between the rings and enlarges the reader ring when it is full or the "
                "decoder asks for buffer (as mptio/stream/stream_poll.c does with mpt_queue_prepare)"]
     assumptions = ["the reader ring can grow (realloc succeeds)", "OS-level partial writes/timeouts of mptio are outside the model"]
@@ -40,8 +45,9 @@ class C02(DiffProperty):
                   "deliver exactly ms and empty the ring), C02_ring_to_ring_all (composed with the writer ring); call level C02_stream_delivers_all. "
                   "Tied to the code by differential execution of the same ring-level model (state compared after every operation) on rings of many capacities/offsets "
                   "with arbitrary wire cuts incl. single-byte delivery, decided against the specification 'received = sent'")
-    level_note = ("partial: the transport between the rings is not in the theorems: the mptio stream glue (mpt_stream_push/flush/poll/dispatch over a socketpair, memory "
-                  "streams) has no mechanism model, it is executed and compared with the specification only (three defects found there and repaired); the liveness theorems "
+    level_note = ("partial: the transport between the rings is not in the theorems yet: the mptio stream glue (mpt_stream_push/flush/poll/dispatch) has a mechanism model "
+                  "(GlueRun.v) that is tied to the code by differential execution with scripted transfers, but the theorems are stated for the ring-level histories it is "
+                  "composed of (three defects were found in the glue and repaired); the liveness theorems "
                   "take the frame bytes as already wired into the reader ring (partial frames: safety only); a genuine decoding error ends the reader history of the "
                   "safety theorem. Theorems closed under the global context.")
     technique = "Coq theorems: ring-level writer and reader histories refine the stream-level codec invariants, end-to-end composition (delivered is a prefix of sent); specification-level differential check of the ring-level mechanism model"
@@ -63,7 +69,7 @@ class C02(DiffProperty):
         if it is None or st is None or mt is None:
             r["corr"] = (-1, "missing output", "I=%s M=%s S=%s" % (it is not None, mt is not None, st is not None))
             return r
-        io = int(case.split()[0]) >= 10     # stream glue case: no mechanism model, specification only
+        io = 10 <= int(case.split()[0]) < 30     # stream glue over a real socketpair: no mechanism model, specification only
         for j in range(max(len(it), len(mt))):
             a = it[j] if j < len(it) else "<none>"
             b = mt[j] if j < len(mt) else "<none>"
@@ -92,23 +98,28 @@ class C02(DiffProperty):
             if got != sent[:len(got)]:
                 r["spec"] = (j, "received so far: " + ",".join(got), "a prefix of the sent messages " + ",".join(sent))
                 break
-            if j < len(ops) and ops[j][0] == "drain" and got != sent:
+            if j < len(ops) and ops[j][0] in ("drain", "gdrain") and got != sent:
                 r["spec"] = (j, "after drain received: " + ",".join(got), "all sent messages " + ",".join(sent))
                 break
         return r
 
     def evaluate(self, cases, workdir, tagsuffix=""):
-        """two harnesses: the ring-level one (variant 0..3) and the stream glue one (variant 10..14, mptio over a socketpair)"""
+        """three harnesses: the ring-level one (variant 0..3), the stream glue over a socketpair (variant 10..24, specification
+        only) and the stream glue with scripted transfers (variant 30..33, compared with coq/Cobs/GlueRun.v at mechanism level)"""
         import vcheck
         hq = vcheck.build_harness(self.harness_src, self.libs, extra=self.extra_harness_flags)
         hi = vcheck.build_harness("c02_io.c", ["mptio", "mptcore"])
         mx = vcheck.build_model(self.mlname, self.driver, self.extract_vo)
         ided = ["c%d %s" % (i, c) for i, c in enumerate(cases)]
-        isio = lambda l: int(l.split(None, 2)[1]) >= 10
+        hg = vcheck.build_harness("c02_glue.c", ["mptio", "mptcore"], extra=["-Wl,--wrap=writev", "-Wl,--wrap=readv"])
+        vid = lambda l: int(l.split(None, 2)[1])
+        isio = lambda l: 10 <= vid(l) < 30
+        isglue = lambda l: vid(l) >= 30
         I, errs = {}, []
         # the stream glue cases get a short per-case time limit: a livelock in the library must not cost 10 s per case
-        for exe, sub, tag, args in ((hq, [l for l in ided if not isio(l)], "impl", self.harness_args),
-                                    (hi, [l for l in ided if isio(l)], "implio", ["3"])):
+        for exe, sub, tag, args in ((hq, [l for l in ided if vid(l) < 10], "impl", self.harness_args),
+                                    (hi, [l for l in ided if isio(l)], "implio", ["3"]),
+                                    (hg, [l for l in ided if isglue(l)], "implglue", ["5"])):
             if sub:
                 o, e = vcheck.run_cases(exe, sub, workdir, tag + tagsuffix, env=self.harness_env, args=args)
                 I.update(o.get("I", {}))
@@ -123,7 +134,8 @@ class C02(DiffProperty):
     def split(self, case):
         t = case.split()
         hdr, rest = t[:5], t[5:]
-        ar = {"send": 1, "part": 1, "fin": 0, "wire": 1, "recv": 0, "drain": 0, "peek": 1, "peekn": 1}
+        ar = {"send": 1, "part": 1, "fin": 0, "wire": 1, "recv": 0, "drain": 0, "peek": 1, "peekn": 1,
+              "gpush": 1, "gfin": 0, "gflush": 1, "gpoll": 1, "gdisp": 0, "gdrain": 0}
         ops = []
         i = 0
         while i < len(rest):
@@ -134,13 +146,13 @@ class C02(DiffProperty):
 
     def shrink(self, case, kind, workdir, budget=12):
         # stream glue cases run against the kernel with a per-case time limit: keep their shrinking short
-        if int(case.split()[0]) >= 10:
+        if 10 <= int(case.split()[0]) < 30:
             budget = 3
         return super().shrink(case, kind, workdir, budget)
 
     def shrink_candidates(self, case):
         hdr, ops = self.split(case)
-        if int(hdr[0]) >= 10:
+        if 10 <= int(hdr[0]) < 30:
             # whole operations only, at most 24 candidates per round
             n = 0
             for k in range(len(ops)):
@@ -151,10 +163,10 @@ class C02(DiffProperty):
                     yield self.join(hdr, ops[:k] + ops[k + 1:])
             return
         for k in range(len(ops)):
-            if not (k == len(ops) - 1 and ops[k][0] == "drain"):
+            if not (k == len(ops) - 1 and ops[k][0] in ("drain", "gdrain")):
                 yield self.join(hdr, ops[:k] + ops[k + 1:])
         for k, o in enumerate(ops):
-            if o[0] in ("send", "part") and o[1] != "-" and len(o[1]) > 2:
+            if o[0] in ("send", "part", "gpush") and o[1] != "-" and len(o[1]) > 2:
                 h = o[1]
                 for cut in (h[:len(h) // 4 * 2], h[len(h) // 4 * 2:], h[2:], h[:-2]):
                     yield self.join(hdr, ops[:k] + [[o[0], cut or "-"]] + ops[k + 1:])
@@ -177,8 +189,10 @@ class C02(DiffProperty):
             cl.add("op:" + o[0])
             if o[0] == "wire" and o[1] == "1":
                 cl.add("single-byte-delivery")
-        if int(hdr[0]) >= 10:
+        if 10 <= int(hdr[0]) < 30:
             cl.add("stream-glue")
+        if int(hdr[0]) >= 30:
+            cl.add("stream-glue-mechanism")
         return cl
 
     def gen_msg(self, rng, v, maxn):
@@ -334,6 +348,68 @@ class C02(DiffProperty):
                     ops += ["fin"]
             ops += ["drain"]
             cases.append(" ".join([str(v), str(size), "0", "0", "0"] + ops))
+        # stream glue at MECHANISM level (harness/c02_glue.c, coq/Cobs/GlueRun.v): the real mpt_stream_push / flush /
+        # poll / dispatch with scripted transfer sizes (partial writes, writes of 0, failing writes, short reads incl.
+        # single bytes, reads into full and wrapped rings), rings of small capacities and arbitrary offsets
+        ng = 1500 if tier == "quick" else 30000
+        for i in range(ng):
+            v = i % 4
+            wcap = rng.choice([0, 8, 12, 16, 17, 24, 40, 64, 300])
+            rcap = rng.choice([0, 8, 12, 16, 17, 24, 40, 64, 300])
+            woff = rng.randrange(0, wcap) if wcap and rng.random() < 0.7 else 0
+            roff = rng.randrange(0, rcap) if rcap and rng.random() < 0.7 else 0
+            ops = []
+            style = rng.random()
+            maxn = rng.choice([3, 10, 30, 120, MAXLEN[v] + 3, 600]) if rng.random() < 0.8 else 40
+            nops = rng.choice([4, 8, 16, 30])
+            pend = False
+            for _ in range(nops):
+                k = rng.random()
+                if k < 0.35:
+                    m = self.gen_msg(rng, v, maxn)
+                    if v >= 2 and rng.random() < 0.3:
+                        # zero pairs: frames that expand on decoding (scratch space, MissingBuffer recovery, growth)
+                        m = []
+                        for _ in range(rng.choice([2, 6, 20, 40])):
+                            m += [rng.randrange(1, 256)] * rng.choice([0, 1, 1, 2]) + [0, 0]
+                    if m and rng.random() < 0.4:
+                        cut = rng.randrange(0, len(m) + 1)
+                        for piece in (m[:cut], m[cut:]):
+                            if piece:
+                                ops += ["gpush", hx(piece)]
+                    elif m:
+                        ops += ["gpush", hx(m)]
+                    ops += ["gfin"]
+                elif k < 0.55:
+                    q = rng.choice([-1, 0, 1, 1, 2, 3, 5, 8, 17, 64, 100000])
+                    ops += ["gflush", str(q)]
+                elif k < 0.75:
+                    q = rng.choice([0, 1, 1, 2, 3, 5, 8, 17, 64, 100000])
+                    ops += ["gpoll", str(q)]
+                elif k < 0.95:
+                    ops += ["gdisp"] * rng.choice([1, 1, 2, 3])
+                else:
+                    ops += ["gdrain"]
+            ops += ["gdrain"]
+            cases.append(" ".join([str(30 + v), str(wcap), str(woff), str(rcap), str(roff)] + ops))
+        # ... and frames that expand on decoding directly behind another frame, all bytes in the input ring before the
+        # dispatcher runs (its look-ahead has to make room), small input rings
+        nh = 300 if tier == "quick" else 6000
+        for i in range(nh):
+            v = 2 + i % 2
+            ops = []
+            for _ in range(rng.choice([1, 2, 3])):
+                a = [rng.randrange(1, 256) for _ in range(rng.choice([1, 3, 5, 8, 9, 10, 11, 20]))]
+                b = []
+                for _ in range(rng.choice([6, 12, 18, 20, 24, 28, 40, 60])):
+                    b += [rng.randrange(1, 256)] * rng.choice([0, 1, 1, 1, 2]) + [0, 0]
+                ops += ["gpush", hx(a), "gfin", "gpush", hx(b), "gfin"]
+                if rng.random() < 0.3:
+                    ops += ["gpush", hx([rng.randrange(1, 256) for _ in range(rng.choice([1, 2, 6]))]), "gfin"]
+                ops += ["gflush", "100000", "gpoll", "100000"] + ["gdisp"] * rng.choice([1, 2, 3, 4])
+            ops += ["gdrain"]
+            cases.append(" ".join([str(30 + v), str(rng.choice([0, 16, 64])), "0", str(rng.choice([0, 8, 16, 24, 64, 128])),
+                                   str(rng.choice([0, 0, 3, 7]))] + ops))
         return cases
 
 PROP = C02()
